@@ -1,1 +1,418 @@
+(* C09/Proofs.v — invariants and lemmas for the accounting model. *)
 From OV Require Import Common.Base C09.Model.
+From Coq Require Import ZifyBool ZifyNat ZifyN.
+Open Scope N_scope.
+
+(* ---------- u64 arithmetic ---------- *)
+Lemma W_pos : 0 < W. Proof. unfold W; lia. Qed.
+
+Lemma sub64_zero a : a < W -> sub64 a 0 = a.
+Proof.
+  intros H. unfold sub64. rewrite N.sub_0_r.
+  replace (a + W) with (a + 1 * W) by lia.
+  rewrite N.mod_add by (unfold W; lia). apply N.mod_small; exact H.
+Qed.
+
+Lemma add64_small a b : a + b < W -> add64 a b = a + b.
+Proof. intros H. unfold add64. apply N.mod_small; exact H. Qed.
+
+(* ---------- c4 helpers ---------- *)
+Definition c4_le (a b : c4) : Prop :=
+  rxb a <= rxb b /\ txb a <= txb b /\ rxp a <= rxp b /\ txp a <= txp b.
+Definition c4_lt_W (a : c4) : Prop := rxb a < W /\ txb a < W /\ rxp a < W /\ txp a < W.
+
+Lemma c4_leb_spec a b : c4_leb a b = true <-> c4_le a b.
+Proof. unfold c4_leb, c4_le. rewrite !andb_true_iff, !N.leb_le. tauto. Qed.
+
+Lemma c4_leb_refl a : c4_leb a a = true.
+Proof. apply c4_leb_spec. unfold c4_le. lia. Qed.
+
+Lemma c4_any2_false f a b :
+  c4_any2 f a b = false ->
+  f (rxb a) (rxb b) = false /\ f (txb a) (txb b) = false /\
+  f (rxp a) (rxp b) = false /\ f (txp a) (txp b) = false.
+Proof.
+  unfold c4_any2. intros H.
+  apply orb_false_elim in H as [H H4]. apply orb_false_elim in H as [H H3].
+  apply orb_false_elim in H as [H1 H2]. auto.
+Qed.
+
+Lemma c4_norm_lt a : c4_lt_W (c4_norm a).
+Proof.
+  unfold c4_lt_W, c4_norm; cbn [rxb txb rxp txp].
+  repeat split; apply N.mod_lt; unfold W; lia.
+Qed.
+
+Lemma lookup_last_lt l i acc st :
+  (forall c, acc = Some c -> c4_lt_W c) -> lookup_last l i acc = Some st -> c4_lt_W st.
+Proof.
+  revert acc. induction l as [|[j c] r IH]; intros acc Ha H; cbn [lookup_last] in H.
+  - apply Ha; exact H.
+  - eapply IH; [|exact H]. intros c0 Hc. destruct (N.eqb i j).
+    + inversion Hc; subst. apply c4_norm_lt.
+    + apply Ha; exact Hc.
+Qed.
+
+Lemma lookup_stats_lt sn i st : lookup_stats sn i = Some st -> c4_lt_W st.
+Proof.
+  unfold lookup_stats. destruct sn as [l|]; [|discriminate].
+  apply lookup_last_lt. intros c H; discriminate.
+Qed.
+
+(* ---------- applyVPPCounters (repaired): never below the last reported values ---------- *)
+Lemma rebase_fields v e st :
+  ifx (rebase v e st) = ifx e /\ last (rebase v e st) = last e /\ pending (rebase v e st) = pending e.
+Proof. unfold rebase. destruct (regressed v e st); cbn; auto. Qed.
+
+Lemma apply_ge e st :
+  c4_lt_W st -> apply_wraps repaired e st = false ->
+  c4_le (last e) (snd (apply repaired e st)).
+Proof.
+  intros (L1 & L2 & L3 & L4) Hw. unfold apply, apply_wraps in *. cbn [snd].
+  unfold rebase in *. destruct (regressed repaired e st) eqn:R.
+  - (* regress: cumulative = reading + last reported, which did not wrap *)
+    apply orb_false_elim in Hw as [_ Hw].
+    apply c4_any2_false in Hw as (H1 & H2 & H3 & H4).
+    cbn [base prior c4_map2 rxb txb rxp txp c4z] in H1, H2, H3, H4.
+    rewrite N.leb_gt, N.sub_0_r in H1, H2, H3, H4.
+    unfold cum, c4_le; cbn [base prior last c4_map2 rxb txb rxp txp c4z].
+    rewrite !sub64_zero by assumption. rewrite !add64_small by assumption. lia.
+  - (* no regress: the test itself says cumulative >= last reported *)
+    unfold regressed in R. apply orb_false_elim in R as [_ R].
+    cbn [fix_counters repaired andb] in R.
+    apply c4_any2_false in R as (H1 & H2 & H3 & H4).
+    rewrite N.ltb_ge in H1, H2, H3, H4. unfold c4_le. auto.
+Qed.
+
+Lemma report_ge e sn :
+  report_wraps repaired e sn = false -> c4_le (last e) (snd (report repaired e sn)).
+Proof.
+  unfold report, report_wraps. destruct (lookup_stats sn (ifx e)) as [st|] eqn:L.
+  - intros Hw. apply apply_ge; [eapply lookup_stats_lt; exact L | exact Hw].
+  - intros _. cbn. unfold c4_le. lia.
+Qed.
+
+Lemma report_fields v e sn :
+  ifx (fst (report v e sn)) = ifx e /\ last (fst (report v e sn)) = last e /\
+  pending (fst (report v e sn)) = pending e.
+Proof.
+  unfold report. destruct (lookup_stats sn (ifx e)); cbn [fst apply]; [apply rebase_fields|auto].
+Qed.
+
+(* ---------- coupling between the component state and the monitor's ledger ---------- *)
+Definition coupled (s : sst) (m : mst) : Prop :=
+  match cache s with
+  | None => db s = None /\ inb s = false /\ m = mst0
+  | Some e =>
+      m_open m = true /\ m_ack m = last e /\ m_pend m = pending e /\ inb s = negb (pending e) /\
+      match db s with
+      | Some d => m_pers m = true /\ last d = last e
+      | None => m_pers m = false
+      end
+  end.
+
+Lemma coupled_init : coupled sst0 mst0.
+Proof. unfold coupled; cbn; auto. Qed.
+
+Lemma step_conforms s m ev :
+  coupled s m -> lstep_wraps repaired s ev = false ->
+  exists m', mon_step m ev (snd (lstep repaired s ev)) = Some m' /\ coupled (fst (lstep repaired s ev)) m'.
+Proof.
+  intros C Hw. unfold coupled in C.
+  destruct s as [ib ca d]. cbn [cache db inb] in C.
+  destruct ca as [e|].
+  - destruct C as (Ho & Ha & Hp & Hi & Hd). subst ib.
+    destruct m as [mo mp mq ma]. cbn [m_open m_ack m_pend m_pers] in *. subst mo ma mq.
+    destruct ev as [i|i|sn|sn ok| |past]; cbn [lstep lstep_wraps cache inb db] in *.
+    + (* Active *)
+      destruct (pending e) eqn:P; cbn [negb fix_active repaired fst snd mon_step m_open].
+      * eexists; split; [reflexivity|]. unfold coupled, confirm; cbn. destruct d; cbn in *; repeat split; intuition auto.
+      * eexists; split; [reflexivity|]. unfold coupled; cbn [cache db inb]. rewrite P.
+        cbn. destruct d; cbn in *; repeat split; intuition auto.
+    + (* Restored *)
+      cbn [fst snd mon_step m_open]. eexists; split; [reflexivity|].
+      unfold coupled, confirm; cbn. destruct d; cbn in *; repeat split; intuition auto.
+    + (* Released *)
+      cbn [fst snd mon_step m_open m_ack].
+      pose proof (report_ge e sn Hw) as G. apply c4_leb_spec in G. rewrite G.
+      eexists; split; [reflexivity|]. unfold coupled; cbn; repeat split; auto.
+    + (* Tick *)
+      destruct (pending e) eqn:P; cbn [negb] in *.
+      * cbn [fst snd mon_step m_open m_pend andb negb]. eexists; split; [reflexivity|].
+        unfold coupled; cbn [cache db inb]. rewrite P. cbn. destruct d; cbn in *; repeat split; intuition auto.
+      * cbn [andb] in Hw.
+        pose proof (report_ge e sn Hw) as G. apply c4_leb_spec in G.
+        pose proof (report_fields repaired e sn) as (F1 & F2 & F3).
+        destruct (report repaired e sn) as [e' c] eqn:RP. cbn [fst snd] in *.
+        destruct ok; cbn [fst snd mon_step m_open m_pend m_ack andb negb Bool.eqb]; rewrite G.
+        -- eexists; split; [reflexivity|]. unfold coupled; cbn. rewrite F3, P. cbn; repeat split; auto.
+        -- eexists; split; [reflexivity|]. unfold coupled; cbn [cache db inb]. rewrite F2, F3, P.
+           cbn. destruct d; cbn in *; repeat split; intuition auto.
+    + (* Restart *)
+      cbn [fst snd mon_step m_open andb]. destruct d as [dd|]; cbn in Hd.
+      * destruct Hd as [Hd1 Hd2]. subst mp. eexists; split; [reflexivity|].
+        unfold coupled; cbn; repeat split; auto.
+      * subst mp. eexists; split; [reflexivity|]. unfold coupled; cbn; repeat split; auto.
+    + (* Prune *)
+      destruct (pending e) eqn:P; destruct past; cbn [andb negb fst snd mon_step m_open m_pend].
+      * eexists; split; [reflexivity|]. unfold coupled; cbn; repeat split; auto.
+      * eexists; split; [reflexivity|]. unfold coupled; cbn [cache db inb]. rewrite P. cbn.
+        destruct d; cbn in *; repeat split; intuition auto.
+      * eexists; split; [reflexivity|]. unfold coupled; cbn [cache db inb]. rewrite P. cbn.
+        destruct d; cbn in *; repeat split; intuition auto.
+      * eexists; split; [reflexivity|]. unfold coupled; cbn [cache db inb]. rewrite P. cbn.
+        destruct d; cbn in *; repeat split; intuition auto.
+  - destruct C as (Hd & Hi & Hm). subst d ib m.
+    destruct ev as [i|i|sn|sn ok| |past]; cbn [lstep lstep_wraps cache inb db fst snd mon_step m_open mst0 fix_stop repaired andb];
+      eexists; (split; [reflexivity|]); unfold coupled; cbn; repeat split; auto.
+Qed.
+
+Lemma run_conforms evs : forall s m,
+  coupled s m -> lrun_wraps repaired s evs = false ->
+  exists m', mon_run m (snd (lrun repaired s evs)) = Some m'.
+Proof.
+  induction evs as [|ev r IH]; intros s m C Hw; cbn [lrun lrun_wraps] in *.
+  - eexists; reflexivity.
+  - apply orb_false_elim in Hw as [Hw1 Hw2].
+    destruct (step_conforms s m ev C Hw1) as (m1 & M1 & C1).
+    destruct (lstep repaired s ev) as [s1 o] eqn:E. cbn [fst snd] in *.
+    destruct (IH s1 m1 C1 Hw2) as (m2 & M2).
+    destruct (lrun repaired s1 r) as [s2 t] eqn:E2. cbn [snd mon_run] in *.
+    rewrite M1. eexists; exact M2.
+Qed.
+
+Lemma conforms evs :
+  lrun_wraps repaired sst0 evs = false -> accepted (snd (lrun repaired sst0 evs)) = true.
+Proof.
+  intros Hw. unfold accepted.
+  destruct (run_conforms evs sst0 mst0 coupled_init Hw) as (m' & M). rewrite M. reflexivity.
+Qed.
+
+(* ---------- what acceptance by the monitor means for the plain call stream ---------- *)
+Lemma lrun_events v evs : forall s, map fst (snd (lrun v s evs)) = evs.
+Proof.
+  induction evs as [|ev r IH]; intros s; cbn [lrun]; [reflexivity|].
+  destruct (lstep v s ev) as [s1 o]. specialize (IH s1).
+  destruct (lrun v s1 r) as [s2 t]. cbn in *. f_equal. exact IH.
+Qed.
+
+(* a Start is only ever sent when the ledger is closed; inside => open and persisted *)
+Lemma mon_bracketed t : forall m m' inside,
+  mon_run m t = Some m' -> no_prune (map fst t) = true ->
+  (inside = true -> m_open m = true /\ m_pers m = true) ->
+  bracketed inside (outputs t) = true.
+Proof.
+  induction t as [|[ev o] r IH]; intros m m' inside M NP I; [reflexivity|].
+  cbn [mon_run] in M. destruct (mon_step m ev o) as [m1|] eqn:S; [|discriminate].
+  cbn [map fst no_prune forallb] in NP. apply andb_true_iff in NP as [NP1 NP2].
+  unfold outputs in *. cbn [flat_map snd].
+  destruct m as [mo mp mq ma].
+  destruct ev as [i|i|sn|sn ok| |past]; cbn [mon_step m_open m_pers m_pend m_ack] in S.
+  - destruct mo.
+    + destruct o; [|discriminate]. inversion S; subst. cbn [app].
+      eapply IH; [exact M|exact NP2|]. intros Hi. destruct (I Hi) as [_ Hp]. cbn in *. auto.
+    + destruct o as [|[| |] [|]]; try discriminate. inversion S; subst. cbn [app bracketed].
+      destruct inside; [destruct (I eq_refl); discriminate|].
+      eapply IH; [exact M|exact NP2|]. cbn; auto.
+  - destruct o; [|discriminate]. cbn [app]. destruct mo; inversion S; subst.
+    + eapply IH; [exact M|exact NP2|]. intros Hi. destruct (I Hi). cbn in *; auto.
+    + eapply IH; [exact M|exact NP2|]. intros Hi. destruct (I Hi). discriminate.
+  - destruct mo.
+    + destruct o as [|[| |c] [|]]; try discriminate. destruct (c4_leb ma c); [|discriminate].
+      inversion S; subst. cbn [app bracketed]. eapply IH; [exact M|exact NP2|]. discriminate.
+    + destruct o; [|discriminate]. inversion S; subst. cbn [app].
+      eapply IH; [exact M|exact NP2|]. intros Hi. destruct (I Hi). discriminate.
+  - destruct (mo && negb mq) eqn:G.
+    + destruct o as [|[|c ok'|] [|]]; try discriminate.
+      destruct (Bool.eqb ok ok' && c4_leb ma c); [|discriminate].
+      cbn [app bracketed]. inversion S; subst.
+      eapply IH; [exact M|exact NP2|]. intros Hi. destruct (I Hi). cbn in *. subst.
+      destruct ok; cbn; auto.
+    + destruct o; [|discriminate]. inversion S; subst. cbn [app].
+      eapply IH; [exact M|exact NP2|exact I].
+  - destruct o; [|discriminate]. cbn [app]. destruct (mo && mp) eqn:G; inversion S; subst.
+    + eapply IH; [exact M|exact NP2|]. intros Hi. cbn. auto.
+    + eapply IH; [exact M|exact NP2|]. intros Hi. destruct (I Hi). cbn in *. subst. discriminate.
+  - destruct o; [|discriminate]. cbn [app]. destruct past; [discriminate|].
+    rewrite andb_false_r in S. inversion S; subst.
+    eapply IH; [exact M|exact NP2|exact I].
+Qed.
+
+(* Stops: not armed => the ledger is closed *)
+Lemma mon_stops t : forall m m' armed,
+  mon_run m t = Some m' -> (armed = false -> m_open m = false) -> stops_ok armed t = true.
+Proof.
+  induction t as [|[ev o] r IH]; intros m m' armed M A; [reflexivity|].
+  cbn [mon_run] in M. destruct (mon_step m ev o) as [m1|] eqn:S; [|discriminate].
+  cbn [stops_ok].
+  destruct m as [mo mp mq ma].
+  destruct ev as [i|i|sn|sn ok| |past]; cbn [mon_step m_open m_pers m_pend m_ack] in S.
+  - destruct mo.
+    + destruct o; [|discriminate]. inversion S; subst. cbn. eapply IH; [exact M|]. discriminate.
+    + destruct o as [|[| |] [|]]; try discriminate. inversion S; subst. cbn.
+      eapply IH; [exact M|]. discriminate.
+  - destruct o; [|discriminate]. cbn. eapply IH; [exact M|]. discriminate.
+  - destruct mo.
+    + destruct o as [|[| |c] [|]]; try discriminate. destruct (c4_leb ma c); [|discriminate].
+      inversion S; subst. cbn. destruct armed; [|specialize (A eq_refl); discriminate].
+      cbn. eapply IH; [exact M|]. reflexivity.
+    + destruct o; [|discriminate]. inversion S; subst. cbn.
+      destruct armed; cbn; (eapply IH; [exact M|]); reflexivity.
+  - destruct (mo && negb mq) eqn:G.
+    + destruct o as [|[|c ok'|] [|]]; try discriminate.
+      destruct (Bool.eqb ok ok' && c4_leb ma c); [|discriminate]. inversion S; subst. cbn.
+      eapply IH; [exact M|]. intros Ha. specialize (A Ha). cbn in A. subst. discriminate.
+    + destruct o; [|discriminate]. inversion S; subst. cbn. eapply IH; [exact M|exact A].
+  - destruct o; [|discriminate]. cbn. destruct (mo && mp) eqn:G; inversion S; subst.
+    + eapply IH; [exact M|]. intros Ha. specialize (A Ha). cbn in A. subst. discriminate.
+    + eapply IH; [exact M|]. reflexivity.
+  - destruct o; [|discriminate]. cbn. destruct (mo && mq && past) eqn:G; inversion S; subst.
+    + eapply IH; [exact M|]. reflexivity.
+    + eapply IH; [exact M|exact A].
+Qed.
+
+(* monotone: open => prev is the acknowledged value (zero while nothing is persisted); closed => prev = 0 *)
+Definition mono_inv (m : mst) (prev : c4) : Prop :=
+  if m_open m then prev = m_ack m /\ (m_pers m = false -> m_ack m = c4z) else prev = c4z.
+
+Lemma mon_monotone t : forall m m' prev,
+  mon_run m t = Some m' -> no_prune (map fst t) = true -> mono_inv m prev ->
+  nondecreasing prev (outputs t) = true.
+Proof.
+  induction t as [|[ev o] r IH]; intros m m' prev M NP I; [reflexivity|].
+  cbn [mon_run] in M. destruct (mon_step m ev o) as [m1|] eqn:S; [|discriminate].
+  cbn [map fst no_prune forallb] in NP. apply andb_true_iff in NP as [NP1 NP2].
+  unfold outputs in *. cbn [flat_map snd].
+  destruct m as [mo mp mq ma]. unfold mono_inv in I. cbn [m_open m_ack m_pers] in I.
+  destruct ev as [i|i|sn|sn ok| |past]; cbn [mon_step m_open m_pers m_pend m_ack] in S.
+  - destruct mo.
+    + destruct o; [|discriminate]. inversion S; subst. cbn [app].
+      eapply IH; [exact M|exact NP2|]. unfold mono_inv; cbn; auto.
+    + destruct o as [|[| |] [|]]; try discriminate. inversion S; subst. cbn [app nondecreasing].
+      eapply IH; [exact M|exact NP2|]. unfold mono_inv; cbn. auto.
+  - destruct o; [|discriminate]. cbn [app]. destruct mo; inversion S; subst.
+    + eapply IH; [exact M|exact NP2|]. unfold mono_inv; cbn; auto.
+    + eapply IH; [exact M|exact NP2|]. unfold mono_inv; cbn. auto.
+  - destruct mo.
+    + destruct o as [|[| |c] [|]]; try discriminate. destruct (c4_leb ma c) eqn:G; [|discriminate].
+      inversion S; subst. cbn [app nondecreasing]. destruct I as [I1 I2]. subst prev. rewrite G. cbn [andb].
+      eapply IH; [exact M|exact NP2|]. unfold mono_inv; cbn. reflexivity.
+    + destruct o; [|discriminate]. inversion S; subst. cbn [app].
+      eapply IH; [exact M|exact NP2|]. unfold mono_inv; cbn; auto.
+  - destruct (mo && negb mq) eqn:G.
+    + destruct o as [|[|c ok'|] [|]]; try discriminate.
+      destruct (Bool.eqb ok ok') eqn:EQ; [|discriminate]. apply Bool.eqb_prop in EQ. subst ok'.
+      destruct (c4_leb ma c) eqn:G2; [|discriminate]. cbn [andb] in S. inversion S; subst.
+      apply andb_true_iff in G as [G _]. subst mo. destruct I as [I1 I2]. subst prev.
+      cbn [app nondecreasing]. rewrite G2. cbn [andb].
+      eapply IH; [exact M|exact NP2|]. destruct ok; unfold mono_inv; cbn; auto.
+      split; [reflexivity|discriminate].
+    + destruct o; [|discriminate]. inversion S; subst. cbn [app].
+      eapply IH; [exact M|exact NP2|]. unfold mono_inv; cbn; auto.
+  - destruct o; [|discriminate]. cbn [app]. destruct mo, mp; cbn [andb] in S; inversion S; subst.
+    + eapply IH; [exact M|exact NP2|]. unfold mono_inv; cbn; auto.
+    + eapply IH; [exact M|exact NP2|]. unfold mono_inv; cbn. destruct I as [I1 I2]. rewrite I1. auto.
+    + eapply IH; [exact M|exact NP2|]. unfold mono_inv; cbn; auto.
+    + eapply IH; [exact M|exact NP2|]. unfold mono_inv; cbn; auto.
+  - destruct o; [|discriminate]. cbn [app]. destruct past; [discriminate|].
+    rewrite andb_false_r in S. inversion S; subst.
+    eapply IH; [exact M|exact NP2|]. unfold mono_inv; cbn; auto.
+Qed.
+
+(* ---------- the three plain statements for the repaired component ---------- *)
+Lemma accepted_run t : accepted t = true -> exists m', mon_run mst0 t = Some m'.
+Proof. unfold accepted. destruct (mon_run mst0 t); [eauto|discriminate]. Qed.
+
+Lemma start_once evs :
+  lrun_wraps repaired sst0 evs = false -> no_prune evs = true ->
+  bracketed false (outputs (snd (lrun repaired sst0 evs))) = true.
+Proof.
+  intros Hw NP. destruct (accepted_run _ (conforms evs Hw)) as (m' & M).
+  eapply mon_bracketed; [exact M| rewrite lrun_events; exact NP | discriminate].
+Qed.
+
+Lemma stop_once evs :
+  lrun_wraps repaired sst0 evs = false ->
+  stops_ok false (snd (lrun repaired sst0 evs)) = true.
+Proof.
+  intros Hw. destruct (accepted_run _ (conforms evs Hw)) as (m' & M).
+  eapply mon_stops; [exact M | reflexivity].
+Qed.
+
+Lemma monotone evs :
+  lrun_wraps repaired sst0 evs = false -> no_prune evs = true ->
+  nondecreasing c4z (outputs (snd (lrun repaired sst0 evs))) = true.
+Proof.
+  intros Hw NP. destruct (accepted_run _ (conforms evs Hw)) as (m' & M).
+  eapply mon_monotone; [exact M| rewrite lrun_events; exact NP | unfold mono_inv; cbn; reflexivity].
+Qed.
+
+(* ---------- repeated notifications are silent (any reachable or unreachable state) ---------- *)
+Lemma after_announce_silent s ev i j :
+  (ev = EActive i \/ ev = ERestored i) ->
+  let s' := fst (lstep repaired s ev) in
+  snd (lstep repaired s' (EActive j)) = [] /\ snd (lstep repaired s' (ERestored j)) = [].
+Proof.
+  intros [E|E]; subst ev; cbn [lstep].
+  - destruct (inb s) eqn:IB.
+    + cbn [fst]. cbn [lstep]. rewrite IB. split; [reflexivity|]. destruct (cache s); reflexivity.
+    + destruct (cache s); cbn; auto.
+  - destruct (cache s); cbn; auto.
+Qed.
+
+Lemma after_release_silent s sn sn' :
+  let s' := fst (lstep repaired s (EReleased sn)) in
+  s' = sst0 /\ snd (lstep repaired s' (EReleased sn')) = [].
+Proof. cbn [lstep]. destruct (cache s); cbn; auto. Qed.
+
+Lemma restore_never_starts v s i : snd (lstep v s (ERestored i)) = [].
+Proof. cbn [lstep]. destruct (cache s); reflexivity. Qed.
+
+(* ---------- the component is the product of the per-session machines ---------- *)
+Lemma gstep_from_nth v bk e : forall g j0 j s,
+  nth_error g j = Some s ->
+  nth_error (gstep_from v bk j0 g e) j = Some (lstep_opt v s (project bk (j0 + j)%nat e)).
+Proof.
+  induction g as [|s0 r IH]; intros j0 j s H.
+  - destruct j; discriminate.
+  - destruct j as [|j]; cbn [nth_error gstep_from] in *.
+    + inversion H; subst. rewrite Nat.add_0_r. reflexivity.
+    + rewrite (IH (S j0) j s H). replace (S j0 + j)%nat with (j0 + S j)%nat by lia. reflexivity.
+Qed.
+
+Lemma gstep_nth v bk g e j s :
+  nth_error g j = Some s ->
+  nth_error (gstep v bk g e) j = Some (lstep_opt v s (project bk j e)).
+Proof. intros H. unfold gstep. rewrite (gstep_from_nth v bk e g 0 j s H). reflexivity. Qed.
+
+Lemma gstep_length v bk e : forall g j0, length (gstep_from v bk j0 g e) = length g.
+Proof. induction g; intros; cbn; auto. Qed.
+
+(* component run: states after a list of component-level events, and session j's local run over the
+   events addressed to it *)
+Fixpoint grun (v : variant) (bk : list N) (g : list sst) (evs : list gev) : list sst :=
+  match evs with
+  | [] => g
+  | e :: r => grun v bk (map fst (gstep v bk g e)) r
+  end.
+Fixpoint local_events (bk : list N) (j : nat) (evs : list gev) : list sev :=
+  match evs with
+  | [] => []
+  | e :: r => match project bk j e with Some le => le :: local_events bk j r | None => local_events bk j r end
+  end.
+
+Lemma component_is_product v bk evs : forall g j s,
+  nth_error g j = Some s ->
+  nth_error (grun v bk g evs) j = Some (fst (lrun v s (local_events bk j evs))).
+Proof.
+  induction evs as [|e r IH]; intros g j s H; cbn [grun local_events].
+  - cbn. exact H.
+  - pose proof (gstep_nth v bk g e j s H) as G.
+    assert (H1 : nth_error (map fst (gstep v bk g e)) j = Some (fst (lstep_opt v s (project bk j e)))).
+    { rewrite nth_error_map, G. reflexivity. }
+    rewrite (IH _ j _ H1).
+    destruct (project bk j e) as [le|]; cbn [lstep_opt fst].
+    + cbn [lrun]. destruct (lstep v s le) as [s1 o]. cbn [fst].
+      destruct (lrun v s1 (local_events bk j r)); reflexivity.
+    + reflexivity.
+Qed.
